@@ -7,6 +7,10 @@ import FlVerif.Lemmas.TermRange
 import FlVerif.Lemmas.Interp
 import FlVerif.Lemmas.TermMono
 import FlVerif.Lemmas.TermLimits
+import FlVerif.Lemmas.CodeDiscrete
+import FlVerif.Lemmas.CodeDiscreteCreate
+import FlVerif.Lemmas.CodeDiscreteLinear
+import FlVerif.Lemmas.CodeDiscreteEngine
 
 /-! # C03 — Membership functions match their documented definitions
 
@@ -680,6 +684,125 @@ theorem discrete_special (pts : List (α × α)) (p : α × α) (h : α) :
   refine ⟨rfl, rfl, rfl, fun x => rfl⟩
 
 end generic
+
+/-! ## `Discrete`: the model is the code
+
+`Gen.Code.Discrete_membership`, `Discrete_x`, `Discrete_y`, `Discrete_to_xy`, `Discrete_create`, `Term_discretize` are
+regenerated from `term.py` on every run (`fv/pylean.py`).  `numpy.interp` is the external `Py.Disc.npInterp`: the
+interpolation model `Op.interpX` on finite sample points, except that NumPy returns the ordinate of a *single* sample
+point for every argument, NaN included (F13). -/
+
+/-- **Tie A (code → model).**  `Discrete.membership` on the array of the finite coordinate pairs `pts` (at least one)
+    returns `Op.discrete pts h x` = `h · interp(x)` for every height and every scalar argument (NaN, ±inf included; the
+    factor `np.where(np.isnan(x), nan, 1.0)` makes the single-pair term NaN at NaN); it raises `ValueError` for an
+    array without entries and for an array that is not two-dimensional. -/
+theorem code_discreteMembership (nf : X ℚ → List (X ℚ) → List (X ℚ) → X ℚ) (values : Py.Disc.Values) (h x : X ℚ) :
+    (values.size = 0 → Gen.Code.Discrete_membership.run nf values h x {} = .error .value) ∧
+    (values.ndim ≠ 2 → Gen.Code.Discrete_membership.run nf values h x {} = .error .value) ∧
+    (∀ pts : List (ℚ × ℚ), pts ≠ [] → values = Py.Disc.Values.ofPts pts →
+      ∃ σ, Gen.Code.Discrete_membership.run nf values h x {} = .ok σ ∧ σ.ret = some (Op.discrete pts h x)) :=
+  Py.Disc.code_discreteMembership nf values h x
+
+/-- **Tie A (code → model).**  `Discrete.x()` is the first column of the array (`IndexError` below two dimensions or
+    without columns): the abscissae of the pairs. -/
+theorem code_discreteX (values : Py.Disc.Values) :
+    (match values.column 0 with
+     | .error e => Gen.Code.Discrete_x.run values {} = .error e
+     | .ok c => ∃ σ, Gen.Code.Discrete_x.run values {} = .ok σ ∧ σ.ret = some c) ∧
+    (∀ pts : List (X ℚ × X ℚ), (Py.Disc.Values.ofPairs pts).column 0 = .ok (.vec (pts.map (·.1)))) ∧
+    (∀ v, (Py.Disc.Values.scalar v).column 0 = .error .lookup) ∧
+    (∀ l, (Py.Disc.Values.vec l).column 0 = .error .lookup) :=
+  Py.Disc.code_discreteX values
+
+/-- **Tie A (code → model).**  `Discrete.y()` is the second column: the ordinates of the pairs. -/
+theorem code_discreteY (values : Py.Disc.Values) :
+    (match values.column 1 with
+     | .error e => Gen.Code.Discrete_y.run values {} = .error e
+     | .ok c => ∃ σ, Gen.Code.Discrete_y.run values {} = .ok σ ∧ σ.ret = some c) ∧
+    (∀ pts : List (X ℚ × X ℚ), (Py.Disc.Values.ofPairs pts).column 1 = .ok (.vec (pts.map (·.2)))) ∧
+    (∀ v, (Py.Disc.Values.scalar v).column 1 = .error .lookup) ∧
+    (∀ l, (Py.Disc.Values.vec l).column 1 = .error .lookup) :=
+  Py.Disc.code_discreteY values
+
+/-- **Tie A (code → model).**  `Discrete.to_xy(x, y)` raises `ValueError` for coordinate arrays of different shapes
+    and otherwise returns `array([x, y]).T`; for two vectors of the same length this is the array of the pairs. -/
+theorem code_toXy (x y : Py.Disc.Coord) :
+    (match Py.Disc.toXy x y with
+     | .error e => Gen.Code.Discrete_to_xy.run x y {} = .error e
+     | .ok v => ∃ σ, Gen.Code.Discrete_to_xy.run x y {} = .ok σ ∧ σ.ret = some v) ∧
+    (∀ a b : List (X ℚ), Py.Disc.toXy (.vec a) (.vec b) =
+      if a.length = b.length then .ok (Py.Disc.Values.ofPairs (List.zip a b)) else .error .value) :=
+  ⟨Py.Disc.code_toXy x y, Py.Disc.toXy_vec⟩
+
+/-- **Tie A (code → model).**  `Discrete.create(name, xy, height)` raises the exception / returns the term the model
+    `Py.Disc.create` says, for every kind of `xy` (text, flat list, flat tuple, tuple of two lists, dictionary, anything
+    else).  For a flat list of finite numbers the term holds the pairs `Op.pairs` makes of it, and an odd number of
+    entries is a `ValueError`; a flat *tuple* of numbers is taken for a pair of sequences: the term holds the
+    one-dimensional array of its first two entries (recorded behaviour of the source as it is). -/
+theorem code_discreteCreate (parse : String → Py.M (X ℚ)) (name : String) (xy : Py.Disc.XY) (height : X ℚ) :
+    (match Py.Disc.create parse name xy height with
+     | .error e => Gen.Code.Discrete_create.run parse name xy height {} = .error e
+     | .ok d => ∃ σ, Gen.Code.Discrete_create.run parse name xy height {} = .ok σ ∧ σ.ret = some d) ∧
+    (∀ l : List ℚ, Py.Disc.create parse name (.seq false (l.map (fun v => Py.Disc.Item.num (X.fin v)))) height =
+      match Op.pairs l with
+      | some pts => .ok ⟨name, Py.Disc.Values.ofPts pts, height⟩
+      | none => .error .value) ∧
+    (∀ (a b : X ℚ) (l : List (X ℚ)),
+      Py.Disc.create parse name (.seq true ((a :: b :: l).map Py.Disc.Item.num)) height =
+        .ok ⟨name, .vec [a, b], height⟩) :=
+  ⟨Py.Disc.code_discreteCreate parse name xy height, fun l => Py.Disc.create_flat parse name l height,
+   fun a b l => Py.Disc.create_flat_tuple parse name a b l height⟩
+
+/-- **Tie A (code → model).**  `Term.discretize(start, end, resolution, midpoints)` samples the membership function
+    `mem` at `Op.midpoints` or at `np.linspace(start, end, resolution + 1)` and makes a `Discrete` term of height 1 of
+    the pairs (model `Py.Disc.discretize`; exceptions of `Op.midpoints`, of the membership function and of `to_xy`
+    are passed on). -/
+theorem code_discretize (mem : List (X ℚ) → Py.M Py.Disc.Coord) (name : String) (lo hi : X ℚ) (resolution : Nat)
+    (mid : Bool) :
+    match Py.Disc.discretize mem name lo hi resolution mid with
+    | .error e => Gen.Code.Term_discretize.run mem name lo hi resolution mid {} = .error e
+    | .ok d => ∃ σ, Gen.Code.Term_discretize.run mem name lo hi resolution mid {} = .ok σ ∧ σ.ret = some d :=
+  Py.Disc.code_discretize mem name lo hi resolution mid
+
+/-! ## `Linear`, `Constant`: the terms of the Takagi-Sugeno controllers (no traced formula: they ignore `x`)
+
+`Gen.Code.Linear_membership`, `Constant_membership` are regenerated from `term.py` on every run.  NumPy values are
+`Py.Np.Nd` (0-d, vector, matrix as the list of its rows).  (Used by the weighted defuzzifiers of C10.) -/
+
+/-- **Tie A (code → model).**  `Linear.membership` returns, for every row of `engine.input_values`, the value of the
+    model `Op.Weighted.linear` (coefficients · row + optional constant) - an engine with `n` input variables whose
+    value columns form the rows `rows` (each of `n` entries; an engine without input variables has the single row
+    without entries); it raises `ValueError` without an engine and when the number of coefficients is neither `n` nor
+    `n + 1`.  (`x` is not used.) -/
+theorem code_linearMembership (cs : List (X ℚ)) (n : Nat) (rows : List (List (X ℚ)))
+    (hrows : ∀ r ∈ rows, r.length = n) :
+    Gen.Code.Linear_membership.run cs none {} = .error .value ∧
+    (cs.length ≠ n → cs.length ≠ n + 1 →
+      Gen.Code.Linear_membership.run cs (some (Py.Disc.Engine.ofRows n rows)) {} = .error .value) ∧
+    (cs.length = n ∨ cs.length = n + 1 →
+      ∃ σ, Gen.Code.Linear_membership.run cs (some (Py.Disc.Engine.ofRows n rows)) {} = .ok σ ∧
+        σ.ret = some (.vec ((if n = 0 then [[]] else rows).map (Op.Weighted.linear cs)))) :=
+  Py.Disc.code_linearMembership cs n rows hrows
+
+/-- **Tie A (code → model).**  `Constant.membership` returns an array of the shape of its argument filled with the
+    value (`np.full_like`); for a scalar argument the value - whatever the argument is, NaN included. -/
+theorem code_constantMembership (value : X ℚ) (x : Py.Np.Nd) :
+    (∃ σ, Gen.Code.Constant_membership.run value x {} = .ok σ ∧ σ.ret = some (Py.Disc.fullLike x value)) ∧
+    (∀ v, Py.Disc.fullLike (.scalar v) value = .scalar value) :=
+  Py.Disc.code_constantMembership value x
+
+/-- the `Linear` and `Discrete` branches of the engine model (`Op.Engine.membership`, the model of C01 / C02 / C13) are
+    these two component models: with `n` input values, `n` or `n + 1` coefficients give `Op.Weighted.linear` and any
+    other number fails; finite coordinate pairs (at least one) give `Op.discrete` -/
+theorem engine_model_linear_discrete {α : Type} [Field α] [LinearOrder α] [IsStrictOrderedRing α] (F : Fn α)
+    (inputs : List (X α)) (name : String) (x : X α) :
+    (∀ cs : List (X α), Op.Engine.membership F inputs (.linear name cs) x =
+      if cs.length = inputs.length ∨ cs.length = inputs.length + 1 then some (Op.Weighted.linear cs inputs) else none) ∧
+    (∀ (pts : List (α × α)) (h : X α), pts ≠ [] →
+      Op.Engine.membership F inputs (.discrete name (pts.map (fun p => X.fin p.1)) (pts.map (fun p => X.fin p.2)) h) x =
+        some (Op.discrete pts h x)) :=
+  ⟨fun cs => Op.Engine.membership_linear F inputs name cs x,
+   fun pts h hne => Op.Engine.membership_discrete F inputs name pts hne h x⟩
 
 /-! ## non-vacuity: the hypotheses are met by concrete terms -/
 example : (Term.triangle (.fin (0 : ℝ)) (1 / 2) (.fin 1) (9 / 10)).Valid := by
